@@ -94,6 +94,12 @@ def encode_cases(build):
             for nm in ('ser_element', 'into_bytes', 'into_encoding', 'into_encoding_ref'):
                 cases.append((f'{prog} named:{nm}', 'b:' + ref_enc_hex(P), f'{nm} of {desc}'))
             cases.append((f'{prog} aff named:ser_affine', 'b:' + ref_enc_hex(P), f'AffinePoint serialisation of {desc}'))
+            cases.append((f'{prog} affref named:ser_affine', 'b:' + ref_enc_hex(P), f'From<&Element> for AffinePoint, then serialisation, of {desc}'))
+            cases.append((f'{prog} affinto named:ser_affine', 'b:' + ref_enc_hex(P), f'CurveGroup::into_affine, then serialisation, of {desc}'))
+            cases.append((f'{prog} aff elref enc', ref_enc_hex(P), f'From<&AffinePoint> for Element of {desc}'))
+            cases.append((f'{prog} aff elval enc', ref_enc_hex(P), f'From<AffinePoint> for Element of {desc}'))
+            cases.append((f'{prog} gdouble enc', ref_enc_hex(ref_add(P, P)), f'Group::double of {desc}'))
+            cases.append((f'{prog} gdouble {prog} dbl eq', 'true', f'Group::double == double_in_place of {desc}'))
             h = ref_enc_hex(P)
             cases.append((f'{prog} named:debug', f'decaf377::Element({h})|decaf377::Element({h})', f'Debug/Display of {desc}'))
             cases.append((f'{prog} aff named:adebug', f'decaf377::AffinePoint({h})|decaf377::AffinePoint({h})', f'Debug/Display of affine {desc}'))
@@ -379,11 +385,32 @@ def kernel_cases(build, obs=()):
     cases = []
     for o in obs:
         m = o.model or {}
-        if m.get('kind') != 'kernel' or 'a' not in m: continue
+        if m.get('kind') != 'kernel': continue
         F = {'fq': 'Fq', 'fr': 'Fr', 'fp': 'Fp'}[m['field']]; f = F[1].lower(); p_ = FIELDS[F]; nb = 48 if F == 'Fp' else 32
         Rm = 2 ** (8 * nb); Ri = pow(Rm, -1, p_)
         push = lambda v: f'{f}.push:{le(v % p_, nb)}'
         out = lambda v: f'{f}:{le(v % p_, nb)}'
+        W = 2 ** 32
+        if 'prim' in m:
+            # a primitive's counterexample (carry/borrow c, words x, y) placed in limb 1 (limb 0 produces the carry) of Montgomery operands
+            c_, x_, y_ = m['c'] & 1, m['x'], m['y']
+            if m['prim'] == 'subborrowx': a_m, b_m = ((x_ << 32), 1 + (y_ << 32)) if c_ else (x_, y_); m = dict(m, a=a_m % p_, b=b_m % p_, fn='sub')
+            elif m['prim'] == 'addcarryx': a_m, b_m = ((W - 1) + (x_ << 32), 1 + (y_ << 32)) if c_ else (x_, y_); m = dict(m, a=a_m % p_, b=b_m % p_, fn='add')
+            elif m['prim'] == 'mulx': m = dict(m, a=x_ % p_, b=y_ % p_, fn='mul')
+            else: continue
+        elif m['fn'] == 'nonzero' and 'limbs' in m:
+            v = m['limbs'] % p_; x = v * Ri % p_
+            cases.append((f'{push(x)} {push(0)} {f}.eq', str(v == 0).lower(), f'{F}: element with Montgomery limbs {v:#x} == 0 (fiat nonzero)'))
+            cases.append((f'{push(0)} {push(x)} {f}.eq', str(v == 0).lower(), f'{F}: 0 == element with Montgomery limbs {v:#x}'))
+            cases.append((f'{push(x + 5)} {push(5)} {f}.eq', str(v == 0).lower(), f'{F}: (x + 5) == 5 for the element x with Montgomery limbs {v:#x}'))
+            continue
+        elif m['fn'] == 'to_bytes' and 'limbs' in m:
+            v = m['limbs'] % p_
+            cases.append((f'{push(v)} {push(0)} {f}.add', out(v), f'{F}: serialising {v:#x} (fiat to_bytes)')); continue
+        elif m['fn'] == 'from_bytes' and 'bytes' in m:
+            bs = m['bytes'].to_bytes(nb, 'little')
+            cases.append((f'modorder:{bs.hex()}', ' '.join(le(m['bytes'] % FIELDS[G], 48 if G == 'Fp' else 32) for G in ('Fq', 'Fr', 'Fp')), f'from_le_bytes_mod_order on the counterexample bytes of {F} from_bytes')); continue
+        if 'a' not in m: continue
         a, b, fn = m['a'], m.get('b', 0), m['fn']
         x, y = a * Ri % p_, b * Ri % p_
         if fn == 'add':
@@ -528,9 +555,19 @@ def r1cs_adversarial_cases(build, obs=()):
     B = ref_B()
     cases.append((f'r1cs:alloc,{le(2 * B[0] % Q)},{le(2 * B[1] % Q)}', 'sat=false', 'witness allocation with the scaled (off-curve) coordinates (2x, 2y) of the generator'))
     return cases
+def shape_cases(build, obs=()):
+    """C15: constraint-system shape of every gadget across structured inputs and in setup mode; public-input clause"""
+    gadgets = ["isqrt", "is_negative", "is_nonnegative", "abs", "decompress", "elligator", "compress", "alloc_witness", "alloc_input", "alloc_constant",
+               "alloc_affine_witness", "alloc_from_field", "add", "add_ref", "sub", "add_assign", "sub_assign", "add_native", "sub_native", "negate", "double", "is_eq",
+               "enforce_equal_cond", "enforce_not_equal_cond", "select", "to_bits", "to_bytes", "from_field_then_compress"]
+    cases = [(f'shape:shape,{g}', ('re', r'^same '), f'gadget {g}: variables and constraint matrices over 14 structured inputs and in setup mode') for g in gadgets]
+    cases += [(f'shape:pubinput,{i}', 'inst=2 value_ok=true tcf_ok=true sat=true', f'public-input allocation of structured element #{i}') for i in range(7)]
+    return cases
+
 def le_bytes(v): return v.to_bytes(32, 'little')
 
 BATTERIES = {
+    'C15': shape_cases,
     'C13': lambda b: r1cs_honest_cases(b),
     'C14': r1cs_adversarial_cases,
     'C16': lambda b: bls_cases(b),
@@ -565,6 +602,12 @@ def reproduce(prop, obs):
             try:
                 import inspect
                 cases = bat(build, os_) if len(inspect.signature(bat).parameters) > 1 else bat(build)
+                if prop not in ('C10', 'C11', 'C12') and any('[field layer]' in o.name or (o.model or {}).get('kind') in ('kernel', 'w-u32') or o.name.startswith('K:') for o in os_):
+                    # a candidate in the field layer below this property: scenarios aimed at the field operation come first
+                    cases = kernel_cases(build, os_) + field_cases(build) + conversion_cases(build) + cases
+                if build == 'ark' and any((o.model or {}).get('kind') in ('conversion', 'constructor', 'negate') for o in os_):
+                    extra_c = [c for c in encode_cases(build) if any(t in c[0] for t in ('affref', 'affinto', 'elref', 'elval', 'gdouble', ' aff '))] + constructor_cases(build)
+                    cases = extra_c + [c for c in cases if c not in extra_c]
                 for profile in ('dev', 'release') if common.tier() == 'thorough' else ('dev',):
                     hit = run_cases(build, cases, profile)
                     if hit: break
@@ -580,3 +623,27 @@ def reproduce(prop, obs):
             for o in os_:
                 o.status = 'inconclusive'
                 o.detail = 'solver candidate NOT reproduced natively (' + (err or f'{len(cases)} concrete scenarios agree with the reference') + '): ' + o.detail
+
+
+def battery_after_inconclusive(prop, obs):
+    """run the property's native battery when the solver verdict is inconclusive; returns [] or one violated Ob with a replay"""
+    import inspect
+    from .common import Ob
+    if prop in ('C14',): return []        # its battery is built from solver candidates and contains the known finding
+    bat = BATTERIES.get(prop)
+    if bat is None: return []
+    inc = [o for o in obs if o.status == 'inconclusive']
+    builds = []
+    for o in inc:
+        b = 'min' if (o.name.startswith(('min:', 'min ', 'K:')) or (o.model or {}).get('build') == 'min') else 'ark'
+        if b not in builds: builds.append(b)
+    for build in builds:
+        cases = bat(build, inc) if len(inspect.signature(bat).parameters) > 1 else bat(build)
+        hit = run_cases(build, cases, 'dev')
+        if hit:
+            hit['property'] = prop
+            hit['symbolic_candidates'] = [{'obligation': o.name, 'detail': o.detail[:300], 'status': 'inconclusive'} for o in inc[:8]]
+            path = replay.write_replay(prop, hit)
+            return [Ob(f'{build}: native battery after an inconclusive solver verdict: {hit["what"]}', 'violated', f'expected {str(hit["expected"])[:120]}, native {str(hit["got"])[:120]}', 0,
+                       'native differential replay (python reference)', None, {'kind': 'battery', 'build': build, 'replay': path, 'native': {k: hit[k] for k in ('cmd', 'expected', 'got', 'what')}})]
+    return []
